@@ -222,10 +222,12 @@ def receiver_is_overlay(F, b, t, maps, bound):
     return None
 
 
-def overlay_entries_replaced_whole(ctx, p):
+def overlay_entries_replaced_whole(ctx, p, MAPS=None, what='log', key='h log-overlay-entries-replaced-whole', floor=3):
     """an entry of the shared log overlay is never edited in place: publication replaces (tag, data) together, so that the tag
-    always names the youngest record that wrote the chunk/value and end_read of an older record leaves it alone."""
+    always names the youngest record that wrote the chunk/value and end_read of an older record leaves it alone. The same holds
+    for the commit overlay (tag = commit id, removed by clean_overlay of that commit only)."""
     F = ctx.F
+    LOG_OVERLAY_MAPS = MAPS if MAPS is not None else globals()['LOG_OVERLAY_MAPS']
     EDIT = re.compile(r'(HashMap.*::(get_mut|get_many_mut|iter_mut|values_mut|get_or_insert_with)|hash_map::(OccupiedEntry|VacantEntry|Entry).*::(get_mut|into_mut|and_modify|or_insert|or_insert_with|or_insert_with_key|or_default)|hash_map::(IterMut|ValuesMut).*::next)$')
     bound = overlay_bound_params(F, LOG_OVERLAY_MAPS)
     bad = []
@@ -246,9 +248,9 @@ def overlay_entries_replaced_whole(ctx, p):
             hit = receiver_is_overlay(F, b, t, LOG_OVERLAY_MAPS, bound)
             if hit and ('HashMap' in nm or 'hash_map::' in nm):
                 bad.append('%s on %s in %s at %s' % (nm.split('::')[-1], hit, b.path, b.loc(bi)))
-    ctx.ob(p + 'h log-overlay-entries-replaced-whole', 'K4-confinement', '-',
-           'outside the record under construction, entries of the shared log overlay are only inserted/extended whole (tag and data together) - never looked up mutably or edited in place (a kept older tag would let end_read of the older record drop the younger record\'s data)',
-           not bad and nwrite >= 3, '; '.join(bad[:4]) or 'whole-entry writes: %d' % nwrite)
+    ctx.ob(p + key, 'K4-confinement', '-',
+           'outside the record under construction, entries of the shared %s overlay are only inserted/extended whole (tag and data together) - never looked up mutably or edited in place (a kept older tag would let the clean-up of the older owner drop the younger owner\'s data)' % what,
+           not bad and nwrite >= floor, '; '.join(bad[:4]) or 'whole-entry writes: %d' % nwrite)
 
 
 def owner_id_removal(ctx, p):
